@@ -405,6 +405,84 @@ namespace sim
     ~elem_co (void) { reg_destroy (); }
   };
 
+  // ------------------------------------------------------------------ flavour SW
+  // nothrow move construction and assignment, but a user-provided ADL swap that may throw:
+  // is_nothrow_swappable<T> is false although both moves are noexcept.
+  template <int Tag = 0>
+  struct elem_sw : elem_core
+  {
+    static const bool copyable       = true;
+    static const bool move_throws    = false;
+    static const bool instrumented   = true;
+    static const bool lvalue_movable = true;
+    static const char *flavour (void) { return "SW"; }
+
+    elem_sw (void) { on_event (EV_CTOR_DEFAULT); value = 0; mf = 0; reg_construct (); }
+    explicit elem_sw (int v) { on_event (EV_CTOR_VALUE); value = v; mf = 0; reg_construct (); }
+    elem_sw (int a, int b) { on_event (EV_CTOR_VALUE); value = a + b; mf = 0; reg_construct (); }
+
+    elem_sw (const elem_sw& o)
+    {
+      on_event (EV_CTOR_COPY);
+      check_live (&o, "copy-constructed from");
+      log_elem (&o, EE_READ);
+      value = o.value; mf = o.mf;
+      reg_construct ();
+    }
+
+    elem_sw (elem_sw&& o) noexcept
+    {
+      on_event_nothrow (EV_CTOR_MOVE);
+      check_live (&o, "move-constructed from");
+      value = o.value; mf = o.mf;
+      o.value = MOVED_FROM_VALUE; o.mf = 1;
+      log_elem (&o, EE_MOVED_FROM);
+      reg_construct ();
+    }
+
+    elem_sw&
+    operator= (const elem_sw& o)
+    {
+      on_event (EV_ASSIGN_COPY);
+      check_live (this, "assigned to");
+      check_live (&o, "copy-assigned from");
+      log_elem (&o, EE_READ);
+      log_elem (this, EE_ASSIGNED_TO);
+      value = o.value; mf = o.mf;
+      return *this;
+    }
+
+    elem_sw&
+    operator= (elem_sw&& o) noexcept
+    {
+      on_event_nothrow (EV_ASSIGN_MOVE);
+      check_live (this, "assigned to");
+      check_live (&o, "move-assigned from");
+      log_elem (this, EE_ASSIGNED_TO);
+      if (this != &o)
+      {
+        value = o.value; mf = o.mf;
+        o.value = MOVED_FROM_VALUE; o.mf = 1;
+        log_elem (&o, EE_MOVED_FROM);
+      }
+      return *this;
+    }
+
+    ~elem_sw (void) { reg_destroy (); }
+
+    friend void
+    swap (elem_sw& a, elem_sw& b)
+    {
+      on_event (EV_SWAP);
+      check_live (&a, "swapped");
+      check_live (&b, "swapped");
+      log_elem (&a, EE_ASSIGNED_TO);
+      log_elem (&b, EE_ASSIGNED_TO);
+      const int v = a.value; a.value = b.value; b.value = v;
+      const std::uint32_t m = a.mf; a.mf = b.mf; b.mf = m;
+    }
+  };
+
   // ------------------------------------------------------------------ flavour TC
   // trivially copyable twin: value only; drives the memcpy/memmove/fill fast paths.
   template <int Tag = 0>
